@@ -203,7 +203,22 @@ func runCase(c *Case, keepLog bool, tapes [][]int, sub string) (*childResult, *c
 	return res, res2
 }
 
+// wallCap (when > 0) bounds the wall-clock limit of re-executions during minimisation: a re-run of a case that took
+// a second at first and now runs for a minute has hung, there is no point in waiting out the full limit every time.
+var wallCap time.Duration
+
+// minimiseDeadline bounds the total time one check spends minimising (several violation classes share it).
+var minimiseDeadline time.Time
+
 func wallLimitFor(sc *scen.Scenario) time.Duration {
+	d := wallLimitFor0(sc)
+	if wallCap > 0 && wallCap < d {
+		return wallCap
+	}
+	return d
+}
+
+func wallLimitFor0(sc *scen.Scenario) time.Duration {
 	if sc != nil && sc.Extra != nil && sc.Extra["footprint"] != "" {
 		return 240 * time.Second
 	}
@@ -421,6 +436,16 @@ func reportViolation(prop string, f found) string {
 	bestTape := tape
 	minimised := false
 	budget := time.Now().Add(4 * time.Minute)
+	if minimiseDeadline.IsZero() {
+		minimiseDeadline = time.Now().Add(8 * time.Minute)
+	}
+	if budget.After(minimiseDeadline) {
+		budget = minimiseDeadline
+	}
+	if f.res != nil && !f.res.timedOut && f.res.wall > 0 {
+		wallCap = max(15*time.Second, 5*f.res.wall)
+		defer func() { wallCap = 0 }()
+	}
 	tries := 0
 	try := func(sc *scen.Scenario, tp []int) bool {
 		if time.Now().After(budget) || tries > 200 {
